@@ -8,6 +8,7 @@ from harness import build as B
 from harness import payload as P
 from harness import refmodel as R
 from harness import spec as S
+from harness import wellcond as W
 from harness.core import is_err
 from harness.treecheck import blame, leaf_preds
 
@@ -58,9 +59,19 @@ def gen(tier, rng, shard, nshards):
     n = SIZES[tier]
     for i in range(n):
         dtm = S.pick(rng, DTMODES)
-        if rng.random() < 0.3:
+        r_ = rng.random()
+        if r_ < 0.3:
             dt = S.pick(rng, S.ALL_DT) if dtm.startswith("mixed") else dtm
             node = annotated_base(rng, dt)
+        elif r_ < 0.4:
+            # towers of views over the *results of routines* on structured arguments (lazy triangular / factor-wise / nested
+            # inverses: each inverse rule returns its own kind of object with its own transpose rule), alone or inside a composite
+            dt = S.pick(rng, S.ALL_DT) if dtm.startswith("mixed") else dtm
+            node = W.gen_routine_directed(rng, dt)
+            if rng.random() < 0.3:
+                n_ = R.shape_of(node)[0]
+                other = {"k": "Dense", "shape": [n_, n_], "dt": dt, "seed": S.seed(rng)}
+                node = {"k": S.pick(rng, ["Sum", "Product", "Kronecker", "BlockDiag"]), "via": "ctor", "args": [node, other] if rng.random() < 0.5 else [other, node]}
         else:
             o = S.Opts(dtmode=dtm, clean=rng.random() < 0.9, max_dim=int(S.pick(rng, [4, 6, 8])), routines=0.08)
             node = S.gen_tree(rng, int(S.pick(rng, [0, 1, 1, 2, 2, 3])), o)
